@@ -296,12 +296,16 @@ def check(run):
         run.ok("E2", "package", f"{len(mods)} modules: no clock / OS-entropy / identity source")
     if not any(f.rule == "E4" for f in run.findings):
         run.ok("E4", "package", "no mutable module/class-level state, no mutable default argument, no global statement")
-    _seeds(run, prog)
-    _fixture(run, prog)
+    wanted = getattr(run, "_wanted", None)          # set when this check is included into another one for some rules only
+    if wanted is None or wanted("E3", ""):
+        _seeds(run, prog)
+    if wanted is None or wanted("FIXTURE", ""):
+        _fixture(run, prog)
     # objects handed in by the caller (instance, target, feature-name list) are shared with later runs: in-place
     # changes make a replay depend on library objects used before (C15 NOMUT clauses)
     from .c06 import depends_on
-    depends_on(run, "C15", {"NOMUT"})
+    if wanted is None or wanted("DEP-C15", "") or wanted("NOMUT", ""):
+        depends_on(run, "C15", {"NOMUT"})
 
 
 def _seeds(run, prog):
